@@ -194,9 +194,12 @@ namespace occa {
           m = *it;
           const dim_t mlo = m->offset;
           const dim_t mhi = m->offset + m->size;
-          if (mlo > hi) {
+          const dim_t blockEnd = ((hi + alignment - 1) / alignment) * alignment;
+          if ((mlo / (dim_t) alignment) * (dim_t) alignment >= blockEnd) {
             /*
-            If the start point of the next reservation is in a new block
+            If the next reservation shares no aligned range with the current block
+            it starts a new block (reservations whose rounded ranges overlap must move
+            together, or packing would need more space than reserved accounts for):
             copy the last block to the new allocation
             */
             memcpy(newBuffer, offset, buffer, lo, hi - lo);
